@@ -100,3 +100,22 @@ Theorem C04_exec_tx_pooled_as_verified : forall is_name cid_of tx_hash vm cfg a 
   resolve is_name s (t_from t) = a.
 Proof. exact exec_tx_pooled_as_verified. Qed.
 Print Assumptions C04_exec_tx_pooled_as_verified.
+
+(** F51 + F52 repaired (current code): a pooled transaction is never executed against an account other than the one
+    verified at admission, after ANY sequence of earlier offers (refused, or executed in discarded attempts) *)
+Theorem C04_pooled_tx_never_executes_as_other : forall is_name cid_of tx_hash vm cfg a bno t ss s o s',
+  exec_tx_pooled is_name cid_of tx_hash vm cfg (va_after is_name 2 (Some a) t ss) bno s t = (o, s') ->
+  o <> Rejected -> resolve is_name s (t_from t) = a.
+Proof. exact pooled_tx_never_executes_as_other. Qed.
+Print Assumptions C04_pooled_tx_never_executes_as_other.
+
+(** the original executeTx removed the verified account before comparing: one offer lost the binding (F51) *)
+Theorem C04_old_code_loses_binding_refuted : forall is_name a t s, va_after is_name 0 (Some a) t [s] = None.
+Proof. exact old_code_loses_binding_refuted. Qed.
+Print Assumptions C04_old_code_loses_binding_refuted.
+
+(** after F51 alone, an offer whose comparison succeeded still removed it (F52) *)
+Theorem C04_f51_code_loses_binding_after_success_refuted : forall is_name a t s,
+  resolve is_name s (t_from t) = a -> va_after is_name 1 (Some a) t [s] = None.
+Proof. exact f51_code_loses_binding_after_success_refuted. Qed.
+Print Assumptions C04_f51_code_loses_binding_after_success_refuted.
